@@ -53,7 +53,9 @@ func farInstant(r *rand.Rand, future bool) time.Time {
 	if future {
 		return pick(r, []time.Time{time.Date(9999, 6, 30, 23, 59, 59, 0, time.UTC), time.Date(2300, 1, 1, 0, 0, 0, 0, time.UTC), time.Date(2262, 4, 12, 0, 0, 0, 0, time.UTC), time.Date(3000, 6, 1, 12, 0, 0, 5e8, time.UTC)})
 	}
-	return pick(r, []time.Time{time.Date(1600, 1, 1, 0, 0, 0, 0, time.UTC), time.Date(1677, 9, 21, 0, 0, 0, 0, time.UTC), time.Date(2, 3, 1, 0, 0, 0, 0, time.UTC), time.Date(1900, 1, 1, 0, 0, 0, 0, time.UTC)})
+	return pick(r, []time.Time{time.Date(1600, 1, 1, 0, 0, 0, 0, time.UTC), time.Date(1677, 9, 21, 0, 0, 0, 0, time.UTC), time.Date(2, 3, 1, 0, 0, 0, 0, time.UTC), time.Date(1900, 1, 1, 0, 0, 0, 0, time.UTC),
+		// instants that implementations like to use as "unset" sentinels
+		time.Date(1, 1, 1, 0, 0, 0, 0, time.UTC), time.Date(1, 1, 1, 0, 0, 0, 0, time.UTC), time.Unix(0, 0).UTC()})
 }
 
 func c05Bound(r *rand.Rand, now time.Time, delta time.Duration, kind string) c05bound {
@@ -68,7 +70,9 @@ func c05Bound(r *rand.Rand, now time.Time, delta time.Duration, kind string) c05
 		return c05bound{kind: kind, text: sim.S("")}
 	case "malformed":
 		t := now.Add(delta)
-		return c05bound{kind: kind, text: sim.S(pick(r, []string{t.Format("2006-01-02"), t.Format("2006-01-02T15:04:05"), "yesterday", t.Format("02/01/2006 15:04"), t.Format("2006-01-02 15:04:05Z"), "0", t.Format("2006-01-02T15:04:05") + "+0530", "T", t.Format(time.RFC1123)}))}
+		return c05bound{kind: kind, text: sim.S(pick(r, []string{t.Format("2006-01-02"), t.Format("2006-01-02T15:04:05"), "yesterday", t.Format("02/01/2006 15:04"), t.Format("2006-01-02 15:04:05Z"), "0", t.Format("2006-01-02T15:04:05") + "+0530", "T", t.Format(time.RFC1123),
+			// calendar forms other datatypes allow but RFC 3339 does not
+			t.Format("2006-01-02") + "T24:00:00Z", t.Format("2006-01-02") + "T24:00:00.750Z", t.Format("2006-01-02") + "T24:00:00+02:00", t.Format("2006-01-02") + "T23:59:60Z", t.Format("2006") + "-13-01T00:00:00Z", "-" + t.Format("2006-01-02T15:04:05Z")}))}
 	}
 	t := now.Add(delta)
 	return c05bound{kind: "ok", t: t, text: sim.S(renderInstant(r, t))}
@@ -88,7 +92,7 @@ func randDelta(r *rand.Rand, future bool) time.Duration {
 	if r.IntN(3) == 0 {
 		d += time.Duration(r.IntN(1e9))
 	}
-	if r.IntN(12) == 0 {
+	if r.IntN(8) == 0 {
 		// far bounds ("never expires" / ancient): centuries away, beyond what fits in nanoseconds since 1970
 		d = time.Duration(math.MaxInt64) // clamp marker, replaced by the caller through farInstant
 	}
@@ -139,6 +143,16 @@ func runC05(c *mon.Ctx) {
 		}
 		nb = c05Bound(r, now, randDelta(r, false), "ok")
 		nooa = c05Bound(r, now, randDelta(r, true), "ok")
+		// bounds on the wrong side of the clock, near or centuries away (incl. the instants used as "unset" sentinels)
+		if r.IntN(6) == 0 {
+			sc[r.IntN(na)] = c05Bound(r, now, randDelta(r, false), "ok")
+		}
+		if r.IntN(6) == 0 {
+			nooa = c05Bound(r, now, randDelta(r, false), "ok")
+		}
+		if r.IntN(6) == 0 {
+			nb = c05Bound(r, now, randDelta(r, true), "ok")
+		}
 		switch focus {
 		case "sc":
 			sc[focusIdx] = c05Bound(r, now, fdelta, badKind)
